@@ -271,6 +271,8 @@ func exec(t *thread, c cmd) kjob.Event {
 		return kjob.Event{Step: c.index, Ev: "outer-enosys", Tid: gettid(), Err: installEnosysHere(0)}
 	case "outer-enosys-thread-nonnp":
 		return kjob.Event{Step: c.index, Ev: "outer-enosys", Tid: gettid(), Err: installEnosys(0, false)}
+	case "outer-deny-strict-thread":
+		return kjob.Event{Step: c.index, Ev: "outer-deny-strict", Tid: gettid(), Err: installDenyStrictHere()}
 	case "outer-deny-nnp-thread":
 		return kjob.Event{Step: c.index, Ev: "outer-deny-nnp", Tid: gettid(), Err: installDenyNNPHere()}
 	case "status":
@@ -479,7 +481,36 @@ func installDenyNNPHere() string {
 	return ""
 }
 
+// installDenyStrictHere: on the calling thread, without touching no_new_privs (needs CAP_SYS_ADMIN), a filter that
+// answers EPERM to seccomp(SECCOMP_SET_MODE_STRICT, ...) only - the call commonly used to probe for seccomp support -
+// and allows everything else, SECCOMP_SET_MODE_FILTER included.
+func installDenyStrictHere() string {
+	nr := uint32(317)
+	if runtime.GOARCH == "386" {
+		nr = 354
+	}
+	prog := []syscall.SockFilter{
+		{Code: 0x20, K: 0},                // ld [0]
+		{Code: 0x15, Jt: 0, Jf: 3, K: nr}, // jeq #seccomp
+		{Code: 0x20, K: 16},               // ld [16] (low word of argument 0)
+		{Code: 0x15, Jt: 0, Jf: 1, K: 0},  // jeq #SECCOMP_SET_MODE_STRICT
+		{Code: 0x06, K: 0x00050000 | 1},   // ret ERRNO|EPERM
+		{Code: 0x06, K: 0x7fff0000},       // ret ALLOW
+	}
+	fp := syscall.SockFprog{Len: uint16(len(prog)), Filter: &prog[0]}
+	r, _, e := syscall.RawSyscall(uintptr(nr), 1, 0, uintptr(unsafe.Pointer(&fp)))
+	if e != 0 || r != 0 {
+		return fmt.Sprintf("seccomp: ret %d errno %v", r, e)
+	}
+	return ""
+}
+
 func run(job *kjob.Job) {
+	if job.Uname26 {
+		if _, _, e := syscall.Syscall(syscall.SYS_PERSONALITY, 0x0020000, 0, 0); e != 0 {
+			emit(kjob.Event{Step: -1, Ev: "error", Err: "personality: " + e.Error()})
+		}
+	}
 	var releaseProbes []kjob.Probe
 	for i, st := range job.Steps {
 		switch st.Op {
@@ -530,7 +561,7 @@ func run(job *kjob.Job) {
 				done <- kjob.Event{Step: i, Ev: "control", Tid: before, TidAfter: after, Migrated: before != after}
 			}()
 			emit(<-done)
-		case "load", "nested-load", "supported", "nnp", "probe", "status", "outer-enosys-thread", "outer-enosys-thread-nonnp", "outer-deny-nnp-thread":
+		case "load", "nested-load", "supported", "nnp", "probe", "status", "outer-enosys-thread", "outer-enosys-thread-nonnp", "outer-deny-nnp-thread", "outer-deny-strict-thread":
 			emit(kjob.Event{Step: i, Ev: "begin:" + st.Op, Idx: st.Thread})
 			if st.Thread < 0 {
 				done := make(chan kjob.Event, 1)
